@@ -106,6 +106,24 @@ theorem working_trie_private (g : Nat) (latest : CowTrie.GNode) (rules : List (L
     ∀ x ∈ CowTrie.gens (CowTrie.addRoutes g (CowTrie.clone g latest) rules).1, x = g :=
   (CowTrie.addRoutes_spec g rules (CowTrie.clone g latest) (CowTrie.clone_gens g latest)).2
 
+/-- **`delRule` on the working copy never writes a published node**: after the deep clone and any
+number of added rules, whatever `delRule` writes (the node that loses the binding, every node on
+the way up that may lose a child) is a node of the working copy, and what is left of the
+working copy is still private — for any number of `delRule` calls in a row. -/
+theorem delRule_writes_only_the_working_copy (g : Nat) (pubs : List CowTrie.GNode) (latest : CowTrie.GNode)
+    (rules : List (List CowTrie.Edge × Nat × Nat)) (name : Nat) (r : CowTrie.GNode × List Nat)
+    (hfresh : ∀ P ∈ pubs, ∀ x ∈ CowTrie.gens P, x < g)
+    (h : CowTrie.delRoute name (CowTrie.addRoutes g (CowTrie.clone g latest) rules).1 = some r) :
+    (∀ w ∈ r.2, ∀ P ∈ pubs, w ∉ CowTrie.gens P) ∧ (∀ x ∈ CowTrie.gens r.1, x = g) := by
+  have hp := working_trie_private g latest rules
+  obtain ⟨h1, h2⟩ := CowTrie.delRoute_spec name _ r h
+  constructor
+  · intro w hw P hP hin
+    have := hp w (h1 w hw)
+    have := hfresh P hP w hin
+    omega
+  · intro x hx; exact hp x (h2 x hx)
+
 /-- contrast (the seeded shallow variable copy): a rule through an existing variable writes a
 node of the published trie. -/
 theorem shallow_clone_writes_published :
@@ -157,3 +175,4 @@ end Larking.Props.C12
 #print axioms Larking.Props.C12.serializable
 #print axioms Larking.Props.C12.visible_atomically
 #print axioms Larking.Props.C12.unlocked_load_loses_update
+#print axioms Larking.Props.C12.delRule_writes_only_the_working_copy
